@@ -183,8 +183,15 @@ Record counters := { c_max : bool; c_page : Z; c_padded : Z }.
 (* Go's int is 64 bits wide and MaxElements * Offset is computed in it: the product wraps *)
 Definition wrap64 (z : Z) : Z := (z + 9223372036854775808) mod 18446744073709551616 - 9223372036854775808.
 
+(* newChecker: paddedPageSize = MaxElements * Offset; when both are positive and the product overflows
+   (padded / Offset != MaxElements) it is math.MaxInt: the page lies beyond any possible result *)
+Definition max_int : Z := 9223372036854775807.
+Definition skip_count (m o : Z) : Z :=
+  let w := wrap64 (m * o) in
+  if Z.gtb m 0 && Z.gtb o 0 && negb (Z.eqb (Z.quot w o) m) then max_int else w.
+
 Definition new_counters (lo : lopts) : counters :=
-  {| c_max := Z.gtb (lo_max lo) 0; c_page := lo_max lo; c_padded := wrap64 (lo_max lo * lo_offset lo) |}.
+  {| c_max := Z.gtb (lo_max lo) 0; c_page := lo_max lo; c_padded := skip_count (lo_max lo) (lo_offset lo) |}.
 
 (* CheckLimitAndUpdate *)
 Definition check_limit (c : counters) : bool * counters :=
